@@ -315,7 +315,7 @@ def run(tier, seed):
            'PROPERTY ReadOnlyStable\nCHECK_DEADLOCK FALSE\n')
     mv = 2 if thorough else 1
     res, g = tlc.dump_graph('Props', 'p.cfg', extra=dict(extra, **{'p.cfg': cfg % mv}), timeout=600)
-    chk.tlc_stats(res, 'Props: 7 declarations, values 0..%d, all histories' % mv)
+    chk.tlc_stats(res, 'Props: 8 declarations, values 0..%d, all histories' % mv)
     if not res.ok:
         chk.violation('model: Props %s %s' % res.violation, dict(kind='TLC', trace=repr(res.trace[-2:])))
     chk.notes['graph'] = [len(g.nodes), g.nedges]
@@ -371,14 +371,14 @@ def run(tier, seed):
     rej, _ = core.validate_traces('Props', OBS, [[tuple(x) for x in tr]], ACTIONS, cfg_consts=trace_cfg(), nproc=1, extra=extra)
     chk.canary = {'what': 'variant type of one recorded Get reply changed', 'rejected': bool(rej)}
     chk.notes['layouts'] = list(LAYOUTS)
-    chk.assumptions = ['one object with seven declarations (same name on two interfaces, two declarations whose interface + name concatenate to the same string, all access modes, all notification modes, '
+    chk.assumptions = ['one object with eight declarations (same name on two interfaces, two declarations whose interface + name concatenate to the same string, all access modes, all notification modes, '
                        'basic types i u s y d b incl. a double holding a Python int) in five class layouts: both interfaces on '
                        'the base class; one interface per class (either way round, the same-named property split between base '
                        'class and subclass); descriptors that do not name their interface; different first-assignment orders',
                        'interface "" is only used with names declared once']
     return chk.finish(
         rule='all histories of local assignment and remote Get/Set/GetAll (right, empty and unknown interface; right and unknown '
-             'property) over six declarations are explored by TLC; every edge and random walks are replayed through '
+             'property) over eight declarations are explored by TLC; every edge and random walks are replayed through '
              'handleMethodCallMessage with the variant type read from the raw reply bytes and PropertiesChanged taken from '
              'sendMessage; random histories with more values are validated by TLC',
         exhaustive=True)
